@@ -80,6 +80,15 @@ bits and every array returned earlier keeps its bits; (e) worker thread, alterna
                              memory), SignatureList / plain list / tuple (hold the caller's               MutableSequence API, in-place overwrite of a
                              arrays), AnnotatedSignatures (wrapper + the list it wraps),                  slot of a values array, of an array object
                              HDF5Signatures (open file, read at every index)                              held by reference, of an index object
+  collections of ONE       SignatureList whose members all have the list's declared dtype   x  x  -  x  x   state-uniform-dtype-length-preserving-changes
+    integer type that        (each of the six), plain list, SignatureList wrapped in                          (product collection type x role x change x
+    keep their LENGTH        AnnotatedSignatures; low values and the top window of the type;                  dtype) and state-sequences-uniform-dtype
+                             between two calls of each bulk function (matrix as refs / refs +                 (random scripts): the second call must
+                             ref_indices / queries / both, pairwise square / flat / indices,                  describe the CURRENT members (same length,
+                             array) the caller changes it by: x[i] = s, x[-i] = s, x[a:b] = [..]              same dtype, other members / order / contents)
+                             (equal length), x[::2] / x[::-1] = [..], reverse(), swap of two
+                             members, pop + insert (move), del + insert of another, in-place
+                             write into the array object / into the element got from x[i]
   gambit dist              two signature files (re-written by the harness between steps),   x  x  x  x  -   cli steps inside scripts: --qs/--rs and
                              output file, process-wide OpenMP thread count set by -c                      --square over the same collections, both orders;
                                                                                                           refused invocations (missing file, --square
@@ -92,7 +101,9 @@ bits and every array returned earlier keeps its bits; (e) worker thread, alterna
   streams: state-sequences (random scripts), state-sequences-reversed (same script backwards when nothing is changed in
     between), state-change-between-calls (collection type x role x change, exhaustive product), state-failed-call-between
     (api x failure x collection type, product), state-one-object-two-collections (index object / query against collections of
-    two sizes, orders XYX and YXY), state-sequences-file-backed (one HDF5Signatures collection), state-sequences-cli.
+    two sizes, orders XYX and YXY), state-sequences-file-backed (one HDF5Signatures collection), state-sequences-cli,
+    state-uniform-dtype-length-preserving-changes and state-sequences-uniform-dtype (row "collections of ONE integer type";
+    the random scripts of every stream also draw the length-preserving changes, there mostly over mixed member types).
   not driven: use after fork (not advertised; the package forks only to compute signatures), an object changed DURING a
     call, truncated / concurrently rewritten signature files (C19), gambit.query sessions (C04/C05/C09)."""
 from fractions import Fraction
@@ -128,11 +139,17 @@ RULE = ('triples (A,B,C) of sorted duplicate-free arrays with per-set dtypes; ch
         'with negative entries, one out= buffer per shape, a progress configuration) with caller-side changes between calls, '
         'calls failing part-way, worker threads and two calls at once; every computing step judged by every clause on the '
         "harness's own record, plus: caller objects unmodified, same call -> same bits, arrays returned earlier unchanged; "
-        'non-trivial: two computing steps share an object and the pool has two pairs that intersect without being equal')
+        'non-trivial: two computing steps share an object and the pool has two pairs that intersect without being equal. '
+        'state-uniform-dtype-* (kind seq): collections holding the caller\'s arrays (SignatureList / plain list / SignatureList inside '
+        'AnnotatedSignatures) whose members ALL have the declared integer type of the collection (each of the six types, low values '
+        'and the top of the type), changed by the caller between two calls of each bulk function WITHOUT changing the length (item / '
+        'negative item / equal-length slice / stepped slice assignment, reverse, swap, pop + insert, delete + insert, in-place write '
+        'into a member array): every call judged by every clause on the members the collection holds at the time of the call')
 TRUSTED = ['tools/pyx2v.py (Cython subset -> Gallina; C integer / binary32 semantics)',
            'Flocq binary32 model of C float division (validated bit-for-bit by the run)',
            'the script interpreter of kind seq (its record of what each collection holds is compared with the collection at the '
-           'end of every script)',
+           'end of every script; length-preserving changes are replayed on a Python list of pool numbers with the same list '
+           'operation, in-place writes follow the array OBJECT into every collection holding it)',
            'the builders of kind store: they hand the caller\'s arrays unchanged to the constructor / conversion named in the case; the '
            'harness\'s own member map through index / mask / slice conversions is checked against the length of the collection; '
            'NumPy integer conversion between integer types holding the value (np.copyto / astype, no float intermediate) and h5py '
@@ -1136,7 +1153,9 @@ SEQ_MUTABLE = ('plain', 'list', 'annotated-list')              # the caller may 
 SEQ_RESIZABLE = ('plain', 'list')                                # ... and append / pop
 SEQ_INPLACE = ('array', 'slice', 'i4bounds', 'annotated')      # one values array: an element is overwritten in place
 SEQ_BYREF = ('plain', 'tuple', 'list', 'annotated-list')       # hold the caller's array objects themselves (no copy)
-SEQ_CHANGES = ('set', 'append', 'pop', 'setidx', 'rewrite')
+SEQ_CHANGES = ('set', 'append', 'pop', 'setidx', 'rewrite', 'setslice', 'reverse', 'swap', 'move', 'replace', 'elemwrite')
+# changes of a list-like collection that keep its LENGTH (its members, their order or their contents differ afterwards)
+SEQ_KEEPLEN = ('set', 'set-neg', 'setslice', 'setslice-step', 'reverse', 'swap', 'move', 'replace', 'rewrite', 'elemwrite')
 SEQ_COMPUTE = ('dist', 'array', 'matrix', 'pairwise', 'cli', 'par')
 _SEQ_STATS = {}
 
@@ -1525,6 +1544,53 @@ def _seq_mutate(P, st):
 	elif op == 'setidx':
 		P.idxs[st['idx']][st['pos']] = st['val']
 		P.idxvals[st['idx']][st['pos']] = st['val']
+	elif op in ('setslice', 'reverse', 'swap', 'move', 'replace', 'elemwrite'):
+		# length-preserving changes through the list / MutableSequence API of a collection holding the caller's arrays (a plain
+		# list, a SignatureList, the SignatureList the caller wrapped in AnnotatedSignatures); the record follows with the same
+		# operation on a Python list of pool numbers
+		t = st['coll']
+		if P.conts[t] not in SEQ_MUTABLE:
+			raise ValueError(f'{op} on a {P.conts[t]}')
+		cont = P.inner[t] if P.conts[t] == 'annotated-list' else P.colls[t]
+		mem = P.members[t]
+		n = len(mem)
+		if op == 'setslice':
+			sl = slice(st['start'], st['stop'], st.get('step'))
+			if len(range(*sl.indices(n))) != len(st['sigs']):
+				raise ValueError('slice assignment of another length')
+			cont[sl] = [P.arrs[i] for i in st['sigs']]
+			mem[sl] = list(st['sigs'])
+		elif op == 'reverse':
+			cont.reverse()
+			mem.reverse()
+		elif op == 'swap':
+			p, q = st['pos'], st['other']
+			cont[p], cont[q] = cont[q], cont[p]
+			mem[p], mem[q] = mem[q], mem[p]
+		elif op == 'move':
+			cont.insert(st['to'], cont.pop(st['pos']))
+			mem.insert(st['to'], mem.pop(st['pos']))
+		elif op == 'replace':
+			del cont[st['pos']]
+			cont.insert(st['to'], P.arrs[st['sig']])
+			del mem[st['pos']]
+			mem.insert(st['to'], st['sig'])
+		else:
+			# the caller writes into the element it gets back FROM the collection (same length); the collection holds the caller's
+			# array object, so every holder of that object follows
+			i, j = mem[st['pos']], st['to']
+			e = cont[st['pos']]
+			if len(e) != len(P.sigs[j]) or not _fits(P.c['dts'][i], max(P.sigs[j], default=0)):
+				_stat('caller-side changes skipped')
+				return
+			new = _arr(P.sigs[j], P.c['dts'][i])
+			e[:] = new
+			if e is not P.arrs[i] and len(e) and not np.shares_memory(e, P.arrs[i]):
+				P.arrs[i][:] = new
+			P.content[i] = j
+		if len(mem) != n or len(cont) != n:
+			raise ValueError('the change did not keep the length')
+		_stat('length-preserving list changes')
 	else:
 		raise ValueError(op)
 
@@ -1775,12 +1841,98 @@ def _seq_run(ctx, c, P):
 			return
 
 
-def _seq_case(rng, rnd, nsteps, cli=False, hdf5=False, thread=0, conts=None, idxhow=None):
+def _keeplen_change(rng, how, t, cur, content, pool, dts):
+	"""one change of kind `how` (SEQ_KEEPLEN) to collection t that keeps its length but not what it holds; cur = pool numbers of
+	the array objects it holds, content = number of the k-mer set each array object holds (both updated); None if this pool
+	offers no such change"""
+	n = len(cur)
+	before = [pool[content[i]] for i in cur]
+	cur0, content0 = list(cur), list(content)
+
+	def other(now):
+		opts = [i for i in range(len(pool)) if pool[content[i]] != now]
+		return rng.choice(opts) if opts else None
+
+	def same_length(i):
+		return [j for j in range(len(pool)) if len(pool[j]) == len(pool[content[i]]) and pool[j] != pool[content[i]] and _fits(dts[i], max(pool[j], default=0))]
+
+	st = None
+	if how in ('set', 'set-neg'):
+		p = rng.randrange(n)
+		i = other(before[p])
+		if i is None:
+			return None
+		cur[p] = i
+		st = dict(op='set', coll=t, pos=p - n if how == 'set-neg' else p, sig=i)
+	elif how in ('setslice', 'setslice-step'):
+		if how == 'setslice':
+			start = rng.randrange(n)
+			k = rng.randint(1, n - start)
+			sl = (rng.choice([start, start - n]), None if start + k == n and rng.random() < 0.5 else start + k, None)
+		else:
+			sl = rng.choice([(None, None, 2), (None, None, -1), (1, None, 2), (-1, None, -2)])
+		pos = list(range(*slice(*sl).indices(n)))
+		if not pos:
+			return None
+		sigs = [rng.randrange(len(pool)) for _ in pos]
+		q = rng.randrange(len(pos))
+		sigs[q] = other(before[pos[q]])
+		if sigs[q] is None:
+			return None
+		for p, i in zip(pos, sigs):
+			cur[p] = i
+		st = dict(op='setslice', coll=t, start=sl[0], stop=sl[1], step=sl[2], sigs=sigs)
+	elif how == 'reverse':
+		cur.reverse()
+		st = dict(op='reverse', coll=t)
+	elif how == 'swap':
+		pairs = [(p, q) for p in range(n) for q in range(n) if before[p] != before[q]]
+		if not pairs:
+			return None
+		p, q = rng.choice(pairs)
+		cur[p], cur[q] = cur[q], cur[p]
+		st = dict(op='swap', coll=t, pos=p, other=rng.choice([q, q - n]))
+	elif how == 'move':
+		pairs = [(p, q) for p in range(n) for q in range(n) if p != q]
+		rng.shuffle(pairs)
+		for p, q in pairs:
+			new = list(cur)
+			new.insert(q, new.pop(p))
+			if [pool[content[i]] for i in new] != before:
+				cur[:] = new
+				st = dict(op='move', coll=t, pos=rng.choice([p, p - n]), to=q)
+				break
+	elif how == 'replace':
+		for _ in range(8):
+			p, q, i = rng.randrange(n), rng.randrange(n), rng.randrange(len(pool))
+			new = list(cur)
+			del new[p]
+			new.insert(q, i)
+			if [pool[content[k]] for k in new] != before:
+				cur[:] = new
+				st = dict(op='replace', coll=t, pos=p, to=q, sig=i)
+				break
+	elif how in ('rewrite', 'elemwrite'):
+		slots = [(p, j) for p in range(n) for j in same_length(cur[p])]
+		if not slots:
+			return None
+		p, j = rng.choice(slots)
+		content[cur[p]] = j
+		st = dict(op='rewrite', sig=cur[p], to=j) if how == 'rewrite' else dict(op='elemwrite', coll=t, pos=rng.choice([p, p - n]), to=j)
+	else:
+		raise ValueError(how)
+	if st is None or [pool[content[i]] for i in cur] == before:
+		cur[:], content[:] = cur0, content0
+		return None
+	return st
+
+
+def _seq_case(rng, rnd, nsteps, cli=False, hdf5=False, thread=0, conts=None, idxhow=None, uniform=None):
 	"""one script: a pool of k-mer sets (empty, equal, nested, overlapping; every fourth pool with values beyond a narrower
 	type), three collections (two of the same length, one of another), two or three index objects (negative indices too),
 	and nsteps steps over them, objects chosen with repetition; the generator follows the lengths so that every index
 	object is used only with collections it is valid for"""
-	wide = rnd % 4 == 0 and not cli and not hdf5
+	wide = rnd % 4 == 0 and not cli and not hdf5 and not uniform
 	lift = rng.choice([2 ** 16, 2 ** 32]) if wide else 0
 	core = sorted(rng.sample(range(30), 6))
 	pool = [[], core, core[:3], core[3:], [core[0]], list(core)]
@@ -1789,9 +1941,15 @@ def _seq_case(rng, rnd, nsteps, cli=False, hdf5=False, thread=0, conts=None, idx
 	if wide:
 		pool += [sorted(set(s) | {lift + x for x in rng.sample(core, 2)}) for s in pool[-2:]]
 	rng.shuffle(pool)
+	if uniform:
+		# every signature in ONE integer type (also the declared type of every collection): low values or a window at the top of it
+		off = rng.choice([0, 0, _cap(uniform) - 30])
+		pool = [[off + x for x in s] for s in pool]
 	top = max(x for s in pool for x in s)
 	fit = [dt for dt in DTYPES if _fits(dt, top)]
 	dts = [rng.choice([dt for dt in DTYPES if _fits(dt, max(s, default=0))]) for s in pool]
+	if uniform:
+		fit, dts = [uniform], [uniform] * len(pool)
 	n1 = rng.randint(2, 4)
 	sizes = [n1, n1, rng.choice([s for s in range(2, 7) if s != n1])]
 	rng.shuffle(sizes)
@@ -1837,6 +1995,14 @@ def _seq_case(rng, rnd, nsteps, cli=False, hdf5=False, thread=0, conts=None, idx
 		"""the caller changes an object the last computing step used (any object if there is none)"""
 		used = [last[f] for f in ('refs', 'sigs', 'qs') if last and last.get(f) is not None]
 		usedidx = [last['idx']] if last and last.get('idx') is not None else []
+		if rng.random() < (0.6 if uniform else 0.3):
+			# a change through the list API that keeps the LENGTH of a collection holding the caller's arrays (the one just used)
+			cs = [t for t in used if colls[t]['cont'] in SEQ_MUTABLE] or [t for t in range(3) if colls[t]['cont'] in SEQ_MUTABLE]
+			if cs:
+				t = rng.choice(cs)
+				ch = _keeplen_change(rng, rng.choice(SEQ_KEEPLEN), t, cur[t], content, pool, dts)
+				if ch:
+					return ch
 		r = rng.random()
 		if r < 0.22:
 			# overwrite an array object in place: one the last step passed directly or through a collection holding references
@@ -1919,7 +2085,7 @@ def _seq_case(rng, rnd, nsteps, cli=False, hdf5=False, thread=0, conts=None, idx
 	steps = []
 	while len(steps) < nsteps:
 		r = rng.random()
-		if r < 0.2 and steps:
+		if r < (0.4 if uniform else 0.2) and steps:
 			last = next((x for x in reversed(steps) if x['op'] in ('dist', 'array', 'matrix', 'pairwise')), None)
 			m = mutate(last)
 			if m:
@@ -2056,6 +2222,46 @@ def _seq_systematic(rng, rnd0):
 				mk = lambda k: dict(op='array', q=1, refs=k, out='none')
 			for order in ((x, y, x), (y, x, y)):
 				yield 'state-one-object-two-collections', dict(c, steps=[mk(k) for k in order])
+
+
+def _seq_uniform(rng, rnd0, ndt):
+	"""collections whose members ALL have the collection's declared integer type (so that every member could be held in one
+	packed array of that type) and that keep their LENGTH over the script: collection type holding the caller's arrays (plain
+	list / SignatureList / SignatureList wrapped in AnnotatedSignatures) x role in a bulk call x length-preserving change of the
+	caller (SEQ_KEEPLEN) x ndt integer types (rotating through all six).  Script: call, change, the same call, another bulk call on
+	the same collection, a second (random) change, both calls again (one into the shared out= buffer)"""
+	roles = {'matrix-refs': lambda: dict(op='matrix', qs=1, refs=0, idx=None, chunksize=rng.choice([None, 1, 2]), out='none', progress=None),
+	         'matrix-refs-idx': lambda: dict(op='matrix', qs=1, refs=0, idx=0, chunksize=rng.choice([None, 2]), out='none', progress=None),
+	         'matrix-qs': lambda: dict(op='matrix', qs=0, refs=1, idx=None, chunksize=None, out='none', progress=None),
+	         'matrix-both': lambda: dict(op='matrix', qs=0, refs=0, idx=None, chunksize=rng.choice([None, 3]), out='none', progress=None),
+	         'pairwise': lambda: dict(op='pairwise', sigs=0, idx=None, flat=False, out='none', progress=None),
+	         'pairwise-flat': lambda: dict(op='pairwise', sigs=0, idx=None, flat=True, out='none', progress=None),
+	         'pairwise-idx': lambda: dict(op='pairwise', sigs=0, idx=0, flat=rng.random() < 0.5, out='none', progress=None),
+	         'array-refs': lambda: dict(op='array', q=rng.randrange(6), refs=0, out='none')}
+	others = ['plain', 'list', 'list', 'array', 'tuple', 'annotated-list']
+	rnd = rnd0
+	for ci, cont in enumerate(SEQ_MUTABLE):
+		for ri, role in enumerate(roles):
+			for hi, how in enumerate(SEQ_KEEPLEN):
+				for di in range(ndt):
+					rnd += 1
+					d = DTYPES[(rnd0 + ci + ri + hi + di) % len(DTYPES)]
+					for attempt in range(4):
+						c = _seq_case(rng, rnd, 0, conts=[cont, rng.choice(others), rng.choice(others)], idxhow=rng.choice(['list', 'np', 'tuple', 'npint-list']), uniform=d)
+						cur, content = list(c['colls'][0]['members']), list(range(len(c['sigs'])))
+						ch = _keeplen_change(rng, how, 0, cur, content, c['sigs'], c['dts'])
+						if ch:
+							break
+					else:
+						continue
+					call, call2 = roles[role](), roles[rng.choice([r for r in roles if r != role])]()
+					steps = [call, ch, dict(call), call2]
+					ch2 = _keeplen_change(rng, rng.choice(SEQ_KEEPLEN), 0, cur, content, c['sigs'], c['dts'])
+					if ch2:
+						steps += [ch2, dict(call, out='shared'), dict(call2)]
+					c['steps'] = steps
+					c['thread'] = (0, 0, 0, 1, 2)[rnd % 5]
+					yield c
 
 
 def finish(ctx):
@@ -2308,6 +2514,17 @@ def generate(ctx):
 		for stream, c in _seq_systematic(rng, 1000 * rep):
 			ctx.count('stream:' + stream)
 			yield 'seq', c
+	# collections of ONE integer type (members and declared type agree) that keep their length while the caller replaces,
+	# reorders or overwrites members between bulk calls: the product, then random scripts with the same changes
+	for c in _seq_uniform(rng, rng.randrange(6), ctx.pick(2, 6)):
+		ctx.count('stream:state-uniform-dtype-length-preserving-changes')
+		yield 'seq', c
+	for rnd in range(ctx.pick(150, 1500)):
+		c = _seq_case(rng, rnd, rng.randint(3, 7), thread=(0, 0, 0, 1, 0, 2, 0)[rnd % 7], uniform=DTYPES[rnd % 6],
+		              conts=[rng.choice(['list', 'list', 'plain', 'annotated-list']), rng.choice(['list', 'plain', 'array', 'tuple', 'annotated-list']),
+		                     rng.choice(['list', 'plain', 'array', 'slice', 'annotated'])])
+		ctx.count('stream:state-sequences-uniform-dtype')
+		yield 'seq', c
 	for rnd in range(ctx.pick(24, 150)):
 		c = _seq_case(rng, rnd, rng.randint(2, 5), hdf5=True)
 		ctx.count('stream:state-sequences-file-backed')
